@@ -166,6 +166,18 @@ func (lp *logProcessor[INPUT, OUTPUT]) forgeLog(
 		if errors.Is(err, postgres.ErrDeadlockDetected) || errors.Is(err, ledgerstore.ErrIdempotencyKeyConflict{}) {
 			return lp.forgeLogRetry(ctx, store, parameters, fn)
 		}
+		if parameters.IdempotencyKey != "" {
+			// A concurrent request using the same idempotency key may have committed while this
+			// one was waiting on its locks: its outcome is then the answer, not the error this
+			// late execution ran into (e.g. insufficient funds after the first one spent them).
+			log, output, ikErr := lp.fetchLogWithIK(ctx, store, parameters)
+			if ikErr == nil && output != nil {
+				return log, output, true, nil
+			}
+			if errors.Is(ikErr, ErrInvalidIdempotencyInput{}) {
+				return nil, nil, false, ikErr
+			}
+		}
 		return nil, nil, false, fmt.Errorf("unexpected error while forging log: %w", err)
 	}
 
